@@ -1496,6 +1496,40 @@ def concrete_eval(ctx: Ctx, f: FunctionInfo, e: Optional[ast.AST], env: Dict[str
             if unknown_key:
                 return UNKNOWN
             return ev(e.args[1]) if len(e.args) > 1 else None
+        if isinstance(base, dict) and len(e.args) <= 2 and not e.keywords:  # a scenario record ({"Error": {"Code": ..}})
+            key = ev(e.args[0])
+            if key is UNKNOWN or not isinstance(key, (str, int)):
+                return UNKNOWN
+            if key in base:
+                return base[key]
+            if len(e.args) == 1:
+                return None
+            if isinstance(e.args[1], ast.Dict) and not e.args[1].keys:
+                return {}
+            return ev(e.args[1])
+    if isinstance(e, ast.Call) and isinstance(e.func, ast.Name) and e.func.id == "getattr" and len(e.args) in (2, 3) and not e.keywords \
+            and isinstance(e.args[1], ast.Constant) and isinstance(e.args[1].value, str) and isinstance(e.args[0], ast.Name):
+        k_ = e.args[0].id + "." + e.args[1].value
+        if k_ in env:
+            return env[k_]
+        if (e.args[0].id + ".*") in env:  # the scenario describes the whole object: any other attribute is absent
+            return ev(e.args[2]) if len(e.args) == 3 else UNKNOWN
+        return UNKNOWN
+    if isinstance(e, ast.Compare) and len(e.ops) > 1:
+        # a < b <= c  ==  a < b and b <= c (operands are evaluated once each; all are pure here)
+        parts = []
+        left = e.left
+        for op_, right in zip(e.ops, e.comparators):
+            parts.append(ast.Compare(left=left, ops=[op_], comparators=[right]))
+            left = right
+        res: object = True
+        for p_ in parts:
+            v_ = concrete_eval(ctx, f, ast.copy_location(p_, e), env, at, depth + 1)
+            if v_ is UNKNOWN:
+                res = UNKNOWN
+            elif not v_:
+                return False
+        return res
     if isinstance(e, ast.Call) and (dotted(e.func) or "").split(".")[-1] == "timedelta" and not e.args and e.keywords \
             and all(k.arg in ("days", "seconds", "microseconds", "milliseconds", "minutes", "hours", "weeks") for k in e.keywords):
         import datetime as _dt
